@@ -60,6 +60,10 @@ def deviation_docs(headers_list, k, seeds=(0,), backbone=None, menu=None):
 
 def materialise(job, cap=6, with_key=False, pre=()):
     h, seq, sd = job[:3]
+    if list(seq) == ['GIANT']:      # the one very large document (giant_model below), addressed like any other (headers, seq, seed) job
+        return giant_model(sd, headers=tuple(h))
+    if list(seq[:1]) == ['GIANT']:
+        return giant_model(sd, rows=int(seq[1]), headers=tuple(h))
     return X.seq_model(h, seq, sd, cap=cap, pre=pre, with_key=with_key)
 
 
@@ -173,3 +177,68 @@ def hist_of(m):
     """the rows below the header as a history for explore.build(): spec rows and ('g', text) tuples (terminator row dropped when the model is closed)"""
     hist = [('g', r) if k == 'g' else [c.spec for c in r] for k, r in m.rows[m.header_row + 1:]]
     return hist[:-1] if m.width() == 0 and hist and not isinstance(hist[-1], tuple) else hist
+
+
+def giant_model(seed, rows=1500, headers=('**kern', '**kern', '**text', '**kern')):
+    """ONE very large document: ~1 900 lines, 350 numbered measures, > 4 200 DIFFERENT kern cells (then the earliest ones again), > 64 KiB of text with
+    multi-byte lyrics, a split/join cycle every 97 rows, clef changes, global comments.  Thresholds it crosses: 64/100/128/256/257/512/990/1000/1024 rows, stages
+    or measures; 256/512/1024/2048/4096 distinct encodings; 64 KiB; recursion depth 1 000."""
+    from .model import Model
+    h = list(headers)
+    m = Model(h, pre=('!!!COM: Giant', '!!!OTL: beyond every bound'))
+    kcols = [i for i, t in enumerate(h) if t == '**kern']
+    clefs = ['*clefG2', '*clefF4', '*clefC3', '*clefGv2', '*clefC4', '*clefF3']
+    m.add([A.V(clefs[(i + seed) % len(clefs)], 'CLEF') if i in kcols else A.NULL_I for i in range(len(h))])
+    m.add([A.V('*k[f#]', 'KEY_SIGNATURE') if i in kcols else A.NULL_I for i in range(len(h))])
+    m.add([A.V('*M4/4', 'TIME_SIGNATURE') if i in kcols else A.NULL_I for i in range(len(h))])
+    durs = ['1', '2', '4', '8', '16', '32', '64', '2.', '4.', '8.', '16.', '4..', '12', '24']
+    pits = [l * k for k in (1, 2, 3) for l in 'cdefgab'] + [l * k for k in (1, 2, 3) for l in 'CDEFGAB']
+    accs = ['', '#', '-', 'n', '##']
+    sigs = [(), ('L',), ('J',), (';',), ("'",)]
+    combos = [(d, p_, a, s) for s in sigs for a in accs for d in durs for p_ in pits]       # 14 700 different notes
+    lyr = ['la', 'ñan', '漢字', 'dú', '𝄞x', 'lu']
+
+    def note_at(k):
+        d, p_, a, s = combos[(k * 11 + seed) % len(combos)]
+        return A.note(d, p_, a, list(s))
+    k = 0
+    first_rows = []
+    for r in range(rows):
+        w = m.width()
+        if r % 4 == 0:
+            m.add([A.V(f'={r // 4 + 1}', 'BARLINES', '=')] * w)
+        if r % 97 == 50:
+            m.add([A.SPLIT if i == 0 else A.NULL_I for i in range(w)])
+            w = m.width()
+        if r % 97 == 60 and w > len(h):
+            m.add([A.JOIN if i in (0, 1) else A.NULL_I for i in range(w)])
+            w = m.width()
+        if r % 211 == 100:
+            m.add_g(f'!!!ONB: comment {r}')
+        if r % 173 == 90:
+            types = m.types()
+            m.add([A.V(clefs[(r + i) % len(clefs)], 'CLEF') if types[i] == '**kern' else A.NULL_I for i in range(w)])
+        types = m.types()
+        row = []
+        for i, t in enumerate(types):
+            if t == '**kern':
+                row.append(note_at(k))
+                k += 1
+            else:
+                row.append(A.text_cell(f'{lyr[(r + i) % len(lyr)]}{r}{lyr[(r + i + 1) % len(lyr)] * 3}', t))
+        if r < 30:
+            first_rows.append(row)
+        m.add(row)
+    # the earliest rows once more: whatever was remembered about them (and evicted since) is asked for again
+    if m.width() == len(h):
+        for row in first_rows:
+            m.add(row)
+    m.add([A.V('==', 'BARLINES')] * m.width())
+    return m.close()
+
+
+GIANT_HEADERS = ['**kern', '**kern', '**text', '**kern']
+
+
+def giant_jobs(seed, kern_only=False):
+    return [(['**kern', '**kern'] if kern_only else list(GIANT_HEADERS), ['GIANT'], seed)]
